@@ -32,6 +32,8 @@
   caller is attached; every callee, callee-index key,
   invocation callee and retrying handler is attached or is the
   meta session (which holds the wamp.* registrations)
+  every message waiting in `inbox` was sent by an attached,      C05_live_refs_inbox
+  buffered session whose handler is still busy
   … holds initially / preserved by every input, task, timed      C05_live_refs_init, _stepOp,
   event, step / in every reachable state                         _runTask, _timed, _step, _reachable
   after the leave of k (EVERY mode: lost, killed, aborted,       C05_leave_gone
@@ -49,6 +51,9 @@
   into publish tasks exactly once, detached then destroyed,
   followed by on_leave, for EVERY non-shutdown mode (kill_all
   included: F30 fixed); nothing for shutdown
+  testament buckets are stored under keys of attached sessions   C05_testaments_task_level,
+  only: kept by every task / input / timed event / step;         C05_testaments_attached, _reachable,
+  add_testament of a caller that has left stores nothing          C05_add_testament_unattached
   "the router holds no per-session … state" once no session      C05_returns_to_empty
   is attached
   calls / invocations / invocationByCall have equal sizes,       C05_bounded
@@ -66,21 +71,23 @@
   * `queues`: the model keeps the outbound queue of a departed session that had stopped reading
     (`ghosts`) until the harness observes the closure (`resume`); queue keys ⊆ sessions joined to
     the realm is C11 (`Realm.Conf`).  `C05_returns_to_empty` therefore says nothing about `queues`.
-  * testaments (finding F20, read level): `add_testament` stores under the caller id found in the
+  * testaments (finding F20, fixed): `add_testament` stores under the caller id found in the
     invocation details.  In the real router the handler goroutines are concurrent, so the caller may
-    have left when the meta handler runs.  In this model every input is run to quiescence and a
-    session's messages are refused once it is ending, so `step` never schedules a `metaInvoke` after
-    the `leave` of its caller: the interleaving is not producible by an operation sequence of the
-    model.  At the granularity of single tasks it is: `C05_testaments_task_level_fails` exhibits a
-    state (pending `metaInvoke add_testament` of a caller that is not attached) in which running the
-    task leaves a testament of a non-attached session.  `C05_leave_testaments` (what leave does to
-    the table) is unconditional.
+    have left when the meta handler runs; `sessionAddTestament` now looks the caller up in `clients`
+    and stores nothing when it is gone (`C05_add_testament_unattached`).  With that, "every testament
+    bucket belongs to an attached session" is an invariant at the granularity of single tasks
+    (`C05_testaments_task_level`, which REPLACES the former witness `C05_testaments_task_level_fails`
+    — that theorem exhibited a pending `metaInvoke add_testament` of a non-attached caller leaving a
+    testament of a session that does not exist; it is false for the fixed router), of steps and in
+    every reachable state (`C05_testaments_attached`, `C05_testaments_attached_reachable`).
+    `C05_leave_testaments` (what leave does to the table) is unconditional.
   * F30 (fixed in /repo 624448b, model follows): sessions ended by `kill_all` used to lose their
     testaments and their `on_leave`; now `kill_all` is a kill like any other and
     `C05_leave_testaments` holds at full strength for every non-shutdown mode.  Only the realm
     shutdown (Router.Close / RemoveRealm) is silent, by design.
 -/
 import Nexus.L2.Proofs.RealmLeave
+import Nexus.L2.Proofs.RealmMeta
 
 namespace Nexus.C05
 open Nexus.L2 Nexus.L2.Realm Nexus.Gen.N
@@ -109,11 +116,18 @@ theorem C05_live_refs (r : Realm) (hi : RealmInv r) :
     rw [hi.dinv.call.callee v hv, hvi] at this
     exact this
 
+/-- … and about what waits in the transport: every message in `inbox` was sent by an attached,
+    `buffered` session whose handler is still in the yield retry loop (clause `inb` of `RealmInv`,
+    kept by every input, task and timed event like the rest): nothing waits for a session that has
+    left, nor for one whose handler could read it. -/
+theorem C05_live_refs_inbox (r : Realm) (hi : RealmInv r) :
+    ∀ e ∈ r.inbox, (∃ c ∈ r.clients, c.key = e.1 ∧ c.buffered = true) ∧ r.busy e.1 = true := hi.inb
+
 /-- The freshly created realm satisfies the invariant. -/
 theorem C05_live_refs_init (cfg : Config) (r : Realm) (h : Realm.create cfg = some r) : RealmInv r :=
   (create_rinv h).1
 
-/-- Every external input keeps it (join, message, transport loss, stall, resume, tick, rnd). -/
+/-- Every external input keeps it (join, message, transport loss, stall, resume, buffer, tick, rnd). -/
 theorem C05_live_refs_stepOp (r : Realm) (hi : RealmInv r) (op : Op) : RealmInv (r.stepOp op) :=
   (stepOp_inv hi op).1
 
@@ -265,33 +279,56 @@ example : LeaveMode.lost.isShutdown = false ∧ (LeaveMode.violation "x").isShut
     (LeaveMode.killed (.goodbye [] "r") true).isShutdown = false ∧
     LeaveMode.shutdown.isShutdown = true := by decide
 
-/-- the per-task statement "testament keys are attached sessions" for an arbitrary pending
-    `metaInvoke` … -/
+/-! ## Testaments belong to attached sessions -/
+
+-- a testament that uses payload passthru (`ppt_scheme` in its publish options) is published like any
+-- other: the meta session announces the publisher feature (it used to be aborted by its own publish)
+example : ({} : Realm).metaS.hasFeature RolePublisher FeaturePayloadPassthruMode = true := by decide
+
+/-- the per-task statement "testament keys are attached sessions" for an arbitrary pending task … -/
 def C05_testaments_task_level_full : Prop :=
   ∀ (r : Realm) (t : Task), RealmInv r → TaskOk t → (∀ x ∈ r.testaments, r.isClient x.1) →
     ∀ x ∈ (r.runTask t).testaments, (r.runTask t).isClient x.1
 
-/-- … is FALSE at task granularity (F20): if the `add_testament` invocation of a session is still
-    pending when the session is no longer attached, running it stores a testament under the id of a
-    session that does not exist.  Witness: no client, meta procedure 1 = add_testament, pending
-    invocation with `caller = sid 5`.  (No operation sequence of `Realm.step` produces this pending
-    state — see the file header; the real router's concurrent handlers can.) -/
-theorem C05_testaments_task_level_fails : ¬ C05_testaments_task_level_full := by
-  intro h
-  let r0 : Realm := { metaProcs := [(1, MetaProcSessionAddTestament)] }
-  have hi : RealmInv r0 := RealmInv.empty _
-  let t : Task := .metaInvoke 7 1 [("caller", .int (sidBase + 5))] [.str "t", .list [], .dict []] []
-  have ht : TaskOk t := trivial
-  have hkeys : (r0.runTask t).testaments.map (·.1) = [5] := by decide
-  have hrun : ∃ x ∈ (r0.runTask t).testaments, x.1 = 5 := by
-    have : 5 ∈ (r0.runTask t).testaments.map (·.1) := by rw [hkeys]; exact List.mem_singleton.mpr rfl
-    obtain ⟨x, hx, hx5⟩ := List.mem_map.mp this
-    exact ⟨x, hx, hx5⟩
-  obtain ⟨x, hx, hx5⟩ := hrun
-  obtain ⟨c, hc, _⟩ := h r0 t hi ht (fun x hx => nomatch hx) x hx
-  have : (r0.runTask t).clients = [] := by decide
-  rw [this] at hc
-  cases hc
+/-- … HOLDS at task granularity (F20 fixed: `sessionAddTestament` checks `r.clients[caller]`; this theorem
+    replaces the former witness theorem `C05_testaments_task_level_fails`).  Whichever pending task runs
+    next: `add_testament` stores nothing for a caller that is no longer attached
+    (`C05_add_testament_unattached`), `flush_testaments` only shrinks or rewrites an existing bucket, the
+    departure of a session takes its own bucket out (`C05_leave_testaments`), and no other task writes
+    the table.  So also when the `add_testament` invocation of a session is still pending when the
+    session has left (the interleaving the real router's concurrent handlers can produce), no testament
+    of a session that does not exist is ever stored. -/
+theorem C05_testaments_task_level : C05_testaments_task_level_full :=
+  fun _ t hi ht h => runTask_testaments hi h t ht
+
+/-- `add_testament` by a caller that is not an attached client (its id is below the session-id base, or
+    names no session in `clients`): the answer is the same empty YIELD, the state is UNCHANGED. -/
+theorem C05_add_testament_unattached (r : Realm) (req c : Nat) (details : Dict) (kw : Dict) (topic : String)
+    (targs : List WVal) (tkw : Dict) (rest : List WVal) (hc : callerOf details = some c)
+    (hs : scopeOf kw = "destroyed" ∨ scopeOf kw = "detached")
+    (hna : c < sidBase ∨ ∀ s ∈ r.clients, s.key ≠ c - sidBase) :
+    metaProc r MetaProcSessionAddTestament req details (.str topic :: .list targs :: .dict tkw :: rest) kw =
+      (mYield req [], r) :=
+  metaProc_addTestament_unattached r req c details kw topic targs tkw rest hc hs hna
+
+-- the former counterexample (no client, pending `add_testament` of session 5): nothing is stored now
+example : let r0 : Realm := { metaProcs := [(1, MetaProcSessionAddTestament)] }
+    (r0.runTask (.metaInvoke 7 1 [("caller", .int (sidBase + 5))] [.str "t", .list [], .dict []] [])).testaments = [] := by
+  decide
+
+/-- The invariant "every testament bucket is stored under the key of an attached session" is kept by
+    every external input, every internal task, every timed event and every step, and holds in every
+    reachable state. -/
+theorem C05_testaments_attached (r : Realm) (hi : RealmInv r) (h : TestamentsAttached r) :
+    (∀ op, TestamentsAttached (r.stepOp op)) ∧
+    (∀ t, TaskOk t → TestamentsAttached (r.runTask t)) ∧
+    (∀ t, TestamentsAttached (r.timerDue t)) ∧ (∀ x, TestamentsAttached (r.retryDue x)) ∧
+    (FuelOnly r.panic → ∀ op, TestamentsAttached (r.step op).2) :=
+  ⟨stepOp_testaments hi h, fun t ht => runTask_testaments hi h t ht, timerDue_testaments h, retryDue_testaments h,
+   fun hp op => step_testaments hi hp h op⟩
+
+theorem C05_testaments_attached_reachable (cfg : Config) (r : Realm) (h : Realm.Reachable cfg r) :
+    ∀ x ∈ r.testaments, r.isClient x.1 := h.testaments
 
 /-! ## After the last session has left -/
 
